@@ -4,12 +4,16 @@ about PsV.gridEval / PsV.sliceMultiply / PsV.bsplineBasis (lean/PsV/Model/Glam.l
 Tie (harness/c17_harness.cpp, real code in-process, shipped-flags and sanitizer builds):
   B  bsplinebasis()  vs PsV.bsplineBasis at IEEE double: bit for bit;
   S  slicemultiply() vs PsV.sliceMultiply on small integers (exact in double): ranges, listed index set and every value exact;
+  T  the same on sparse tensors with large index ranges (flattened sections of 2^16..2^22 columns: index arithmetic beyond 16 bits);
   G  splinetable::grideval and the C wrapper splinetable_grideval vs PsV.gridEval at Rat: ranges exact, listed index set
      exact, every value within K_d*2^-53*Sum|coef|Prod|B| of the exact value.
 Oracle (independent of the model): PsV.gridSpec = Sum_idx coef*Prod_d B_d (exact, Rat) on the implementation's output: value
 within the envelope, index ranges = grid lengths, unlisted => spec value exactly 0; real pointwise ndsplineeval<float> at every
 grid point strictly inside the knot range within (K_d*2^-53 + K_f*2^-24)*Sum|coef|Prod|B| wherever the right-continuous
-basis of grideval and the evaluation convention coincide (PsV.gridSpec == PsV.specEval, decided exactly)."""
+basis of grideval and the evaluation convention coincide (PsV.gridSpec == PsV.specEval, decided exactly; by
+grideval_eq_pointwise that is everywhere except at a knot >= knots[naxes] of multiplicity > order, and the check asserts it).
+Index arithmetic: the driver evaluates PsV.sliceIdxSafe / PsV.gridIdxSafe (hypothesis of slicemultiply_int_arith_exact /
+grideval_int_arith_exact: every flattened section has < 2^31 columns) on every case; a case outside it breaks the tie."""
 import json, os, struct, sys
 from fractions import Fraction
 import psvlib
@@ -61,7 +65,7 @@ def run(ctx):
     evals = 0; nontriv = set(); dist = {}
     worst_d = Fraction(0); worst_f = Fraction(0)
     counts = {"grid_points": 0, "inside_points_compared_pointwise": 0, "convention_differs_points": 0, "unlisted_points": 0,
-              "B_lines": 0, "S_lines": 0, "G_lines": 0, "pointwise_rejected_outside": 0}
+              "B_lines": 0, "S_lines": 0, "T_lines": 0, "G_lines": 0, "pointwise_rejected_outside": 0, "idx_safe_cases": 0}
     for mode in modes:
         exe = ctx.compile("c17_" + mode, ["c17_harness.cpp"], mode=mode, defines=["PHOTOSPLINE_INCLUDES_SPGLAM"],
                           repo_c=psvlib.FITTER_C, libs=psvlib.FITTER_LIBS)
@@ -108,19 +112,25 @@ def run(ctx):
                         broke("bsplinebasis bits differ from PsV.bsplineBasis at F64")
                     else: nontriv.add(c)
                     continue
-                if kind == "S":
-                    counts["S_lines"] += 1
+                if kind in ("S", "T"):
+                    counts[kind + "_lines"] += 1
                     if i == "fail" or m == "fail":
                         if i != m: broke("slicemultiply dimension check differs")
                         continue
                     mp = [z.strip().split() for z in m.split("|")]
+                    if len(mp) < 4 or mp[3] != ["safe=1"]:
+                        broke("generated slicemultiply case violates PsV.sliceIdxSafe (>= 2^31 columns): outside the hypothesis of slicemultiply_int_arith_exact")
+                    else: counts["idx_safe_cases"] += 1
                     ranges, ent = parse_nd(i.split())
                     mr = [int(z) for z in mp[0][1:]]
                     if ranges != mr: broke("slicemultiply ranges differ"); continue
                     if set(ent) != parse_listed(mp[1], len(ranges)): broke("slicemultiply listed index set differs")
                     vals = [frac(z) for z in mp[2]]
                     ok = True
-                    for idx, v in zip(all_idx(ranges), vals):
+                    # S: dense comparison over the whole result range; T (large ranges): at every index either side lists (unlisted = 0 on both)
+                    where = all_idx(ranges) if kind == "S" else sorted(parse_listed(mp[1], len(ranges)))
+                    if len(where) != len(vals): broke("line shape"); continue
+                    for idx, v in zip(where, vals):
                         iv = sum((Fraction(dbl(b)) for b in ent.get(idx, [])), Fraction(0))
                         if iv != v: ok = False
                     if not ok: broke("slicemultiply values differ from PsV.sliceMultiply (exact integers)")
@@ -147,6 +157,9 @@ def run(ctx):
                 if m == "none": broke("model returned none, grideval a result"); continue
                 ranges, ent = parse_nd(ip[0].split())
                 mp = [z.strip().split() for z in m.split("|")]
+                if len(mp) < 4 or mp[3] != ["safe=1"]:
+                    broke("generated grid case violates PsV.gridIdxSafe (a flattened section with >= 2^31 columns): outside the hypothesis of grideval_int_arith_exact")
+                else: counts["idx_safe_cases"] += 1
                 if ranges != lens:
                     ctx.violation(rep, "index ranges of the grideval result %r are not the grid lengths %r" % (ranges, lens)); continue
                 if [int(z) for z in mp[0][1:]] != ranges: broke("model ranges differ")
@@ -194,11 +207,12 @@ def run(ctx):
                         if pw[q] == "x": counts["pointwise_rejected_outside"] += 1
                         continue
                     if spec != spt:
-                        # the exceptional set of grideval_eq_pointwise_partial: x >= knots[naxes] and x is a knot
-                        exc = any(xv >= d["knots"][d["nknots"] - d["order"] - 1] and xv in d["knots"] for d, xv in zip(g["dims"], x))
+                        # grideval_eq_pointwise: the two exact specifications agree wherever every coordinate satisfies PsV.AgreeAt
+                        # (x < knots[naxes], or x occurs at most `order` times among the knots); they may differ only elsewhere
+                        agree = all(xv < d["knots"][d["nknots"] - d["order"] - 1] or d["knots"].count(xv) <= d["order"] for d, xv in zip(g["dims"], x))
                         counts["convention_differs_points"] += 1
-                        if not exc or not repeated:
-                            broke("PsV.gridSpec != PsV.specEval outside the named exceptional set (or with simple knots)", point=x)
+                        if agree:
+                            broke("PsV.gridSpec != PsV.specEval at a point satisfying PsV.AgreeAt in every dimension (instance of grideval_eq_pointwise)", point=x)
                         continue
                     if pw[q] == "x":
                         ctx.violation(dict(rep, grid_index=idx, x=x), "pointwise lookup rejected a point strictly inside the knot range"); continue
@@ -226,7 +240,7 @@ def run(ctx):
     ctx.coverage["worst_pointwise_vs_exact_in_units_of_2^-24*mag"] = float(worst_f)
     ctx.assumptions += ["rounding envelope: |grideval - exact| <= K*2^-53*Sum|coef|Prod|B| with K = 4*Sum_d(3*order_d+2) + 2*Prod_d(order_d+1) + 10 (double accumulation inside CHOLMOD, order unknown); pointwise float evaluation adds K*2^-24 of the same magnitude",
                         "CHOLMOD (ssmult, triplet/sparse conversion) is modelled by its mathematical meaning: equal (row,col) contributions are added, exact zeros of the basis matrix are not stored",
-                        "int / unsigned index arithmetic of slicemultiply does not overflow (product of the other ranges < 2^31)",
+                        "int / unsigned / long index arithmetic of slicemultiply: proved exact (no wrap-around, no zero divisor) whenever the flattened section has < 2^31 columns (slicemultiply_int_arith_exact, grideval_int_arith_exact about the C-typed model PsV.sliceMultiplyC); the decidable hypothesis is evaluated on every generated case; still assumed: the entry counter `int i < a->rows` (needs fewer than 2^31 stored entries) and CHOLMOD's internal index arithmetic",
                         "ownership of the C wrapper's result is released through the C++ type in the harness (ndsparse_destroy deletes through the C base type: C18's finding)"]
 
 def replay(ctx, path):
